@@ -186,8 +186,8 @@ def _run(ctx: Ctx) -> None:
                   "TailAlphabet": S(["e", "l", "a", ":", "/", "B", "@", "8"]), "TailLen": 4,
                   "PrefixSchemes": S(["H", "Hs"]), "PrefixSlashes": S(["/"]), "BaseScheme": "H"}
     else:
-        consts = {"FlatAlphabet": S(flat_q + ["T", "S"]), "FlatLen": 4,
-                  "TailAlphabet": S(["e", "l", "a", ":", "/", "B", "@", "?", "#", ".", "%", "S", "T", "8", "[", "]"]), "TailLen": 4,
+        consts = {"FlatAlphabet": S(flat_q), "FlatLen": 4,
+                  "TailAlphabet": S(["e", "l", "a", ":", "/", "B", "@", "?", "#", ".", "%", "S", "T", "8"]), "TailLen": 4,
                   "PrefixSchemes": S(["H", "Hs"]), "PrefixSlashes": S(["/"]), "BaseScheme": "H"}
     cases = enumerate_families(ctx, "data", "Url", fams, constants=consts, name="Url:enumerate")
     ctx.exhaustive = True
@@ -369,7 +369,7 @@ def _run(ctx: Ctx) -> None:
             ctx.sample({"abstract": o["case"], "concrete": o["_u"], "reference_kind_of_input": o["_kind"], "observed": o["obs"],
                         "location": o.get("_loc")})
         bad = table.judge(ctx, "data", "Url", [{"case": o["case"], "obs": o["obs"]} for o in obs], constants=consts,
-                          chunk=40000)
+                          chunk=80000)
         classes: dict[str, int] = {}
         for idx, clauses in bad:
             o = obs[idx]
